@@ -15,3 +15,11 @@ func VerifClientConnections(m *Manager, ns string) int {
 	}
 	return int(v.(*uber_atomic.Int32).Load())
 }
+
+// VerifAdminAddr is the address the admin HTTP server really listens on.
+func VerifAdminAddr(s *Server) string {
+	if s.adminServer == nil || s.adminServer.listener == nil {
+		return ""
+	}
+	return s.adminServer.listener.Addr().String()
+}
